@@ -122,7 +122,7 @@ def build(kind, r):
         V2, F2 = meshes.build(dict(r["mesh"], base="tetra"))
         g1 = trimesh.Trimesh(vertices=V2, faces=F2, process=False)
         g1.visual.face_colors = np.column_stack([rs.randint(0, 256, (len(F2), 3)), np.full(len(F2), 255)]).astype(np.uint8)
-        sc.add_geometry(g0, node_name="a", geom_name="g0", transform=mx.hom(mx.rodrigues([0, 0, 1], 0.5), [1, 0, 0]))
+        sc.add_geometry(g0, node_name="a", geom_name="g0", transform=mx.hom(mx.rodrigues([0, 0, 1], 0.5), [1, 0, 0]), **({"metadata": {"serial": 0, "history": ["root part"]}} if r.get("edge_meta", True) else {}))
         sc.add_geometry(g1, node_name="b", geom_name="g1", parent_node_name="a", transform=mx.hom(None, [0, 2, 0]), **({"metadata": {"serial": 1, "history": ["made"]}} if r.get("edge_meta", True) else {}))
         sc.graph.update(frame_to="c", frame_from="b", matrix=mx.hom(mx.rodrigues([1, 0, 0], 0.3), [0, 0, 1.5]), geometry="g0")
         if r.get("points"):
